@@ -18,13 +18,15 @@ decoder in this file, so the oracle never reads implementation state except the 
 Alphabet (d in {"O","I"}; E = the endpoint that sends in direction d, P = its peer):
   ("snd", d, rel, sel, drop)  E sends its next packet, reliable iff rel, carrying appended acks chosen by ``sel`` from the
                               <=3 oldest not-yet-acked reliable wire IDs E has received:  "-" nothing pending,
-                              "a" all of them, "o" only the oldest (when >=2 pending) [dev], "n" none although some
-                              are pending [dev]; drop=1: the proxy (an addon) drops it [dev]
-  ("pack", d, sel)            E sends a standalone PacketAck for "a"ll / "o"ldest-only [dev] of the same window
+                              "a" all of them, "o" only the oldest / "w" only the newest of the window (when >=2
+                              pending; "w" = the older ones were lost or are acked late) [dev], "n" none although some
+                              are pending [dev]; drop=1: the proxy (an addon) drops it [dev] (sel in -,a,o,n)
+  ("pack", d, sel)            E sends a standalone PacketAck for "a"ll / "o"ldest-only [dev] / ne"w"est-only [dev]
   ("rtx", d, drop)            E retransmits its oldest own unacked reliable packet: same ID, RESENT flag [dev]
   ("inj", d, rel)             the proxy injects a packet travelling in direction d (reliable iff rel)
-  ("T", k)                    virtual time passes: "past" = exactly one resend interval, "short" = one poll (0.1 s) less
-                              [dev], "exhaust" = (budget+1) intervals in one go [dev]
+  ("T", k)                    virtual time passes: "past" = one resend interval + one poll (0.1 s), "short" = one interval
+                              - one poll [dev], "exhaust" = (budget+1) x "past" in one go [dev]; enabled once any
+                              reliable packet has passed through the circuit (before that a Tick cannot do anything)
 
 Oracle (one clause per sentence of the property; every clause is evaluated on the decoded datagrams the transport was
 handed during the step, never on implementation state):
@@ -36,10 +38,11 @@ handed during the step, never on implementation state):
   ack-to-sender-missing                 a dropped reliable packet is acknowledged to its sender
   injected-ack-reached-endpoint / all-injected-packetack-forwarded   acks of injected packets never reach an endpoint; a
                                         PacketAck consisting only of such acks is not forwarded at all
-  resend-missing / resend-early / resend-after-completion / resend-flags / resend-id-changed
-                                        an injected reliable packet is retransmitted (same wire ID, RELIABLE|RESENT) at
-                                        the first poll at which a whole interval has elapsed since its last transmission,
-                                        never otherwise, never after it was acked or its budget was spent
+  resend-missing / resend-early / resend-after-completion / resend-beyond-budget / resend-flags / resend-id-changed
+                                        an injected reliable packet is retransmitted (same wire ID, RELIABLE|RESENT) once
+                                        per elapsed interval: never while less than an interval has passed since its last
+                                        transmission, at the latest one poll after the interval has elapsed (either side
+                                        of the boundary is accepted), never after it was acked or its budget was spent
   completion-not-at-ack / completion-not-at-exhaustion / completion-premature / completion-wrong-outcome
                                         the future returned by send_reliable resolves exactly when the receiving endpoint's
                                         ack enters the proxy, fails with TimeoutError exactly at exhaustion, is pending
@@ -53,10 +56,20 @@ Reading of "budget" (the repo's own test_reliable_resend_cadence and the field n
 the original plus N-1 retransmissions, one per elapsed interval; when the N-th interval elapses unacknowledged the
 future fails and nothing is sent.
 
+State identity: canon() = both InjectionTrackers' fields, unacked_reliable (key, tries_left, age, flags, future done) in
+dict order, and the model (per endpoint: next id, its unacked reliable packets, pending receipts, wire->origin map of
+reliable receipts; per injection: direction, wire id, state, age, intervals used).  An endpoint's record of packets that
+are no longer outstanding is left out: it only selects between the clause names ack-not-own-id / ack-without-cause.
+Successor states are produced by World.__deepcopy__, a field-by-field clone of the live circuit (futures re-created in
+the same state on the one virtual loop of the process); explore.bfs re-derives every 53rd state by full replay from the
+empty history and compares canon(), which is the standing check that the clone is faithful.
+
 Deviations from DESIGN: (1) StartPingCheck.OldestUnacked rewriting is not part of the property statement and is left
 out; (2) dropping a standalone PacketAck is not in the alphabet (the statement only speaks about acks *piggy-backed* on
 a dropped packet); (3) the shallow seam (datagram_received + Session + addon) is not built; (4) Tick("exhaust") was
-added so that the retry budget can be spent inside the depth bound; (5) retransmitted endpoint packets carry no acks.
+added so that the retry budget can be spent inside the depth bound; (5) retransmitted endpoint packets carry no acks;
+(6) instead of one (depth, deviation) pair the search is a staircase of pairs (see SEARCHES): the alphabet has ~11
+default and ~28 deviation events per state, depth 7 with 3 deviations is ~10^9 transitions.
 """
 from __future__ import annotations
 
@@ -64,6 +77,7 @@ import asyncio
 import copy
 import dataclasses
 import os
+import socket
 import struct
 from collections import deque
 from collections import Counter
@@ -136,6 +150,15 @@ def decode(direction: Direction, dst, data: bytes) -> Dg:
     g = Dg()
     g.d = "O" if direction == Direction.OUT else "I"
     g.addr_ok = (dst == (FAR if g.d == "O" else NEAR))
+    g.wire, g.flags, g.acks, g.kind, g.tag, g.ids = -1, 0, [], "?", None, []
+    try:
+        _decode_into(g, data)
+    except (IndexError, struct.error):
+        g.kind = "?"
+    return g
+
+
+def _decode_into(g: Dg, data: bytes):
     g.flags, g.wire, off = struct.unpack(">BIB", data[:6])
     body = data[6 + off:]
     g.acks = []
@@ -155,7 +178,6 @@ def decode(direction: Direction, dst, data: bytes) -> Dg:
     elif body.startswith(_NUM_DATA):
         g.kind = "data"
         g.tag = struct.unpack("<I", body[len(_NUM_DATA):len(_NUM_DATA) + 4])[0]
-    return g
 
 
 class CapTransport:
@@ -172,6 +194,14 @@ class CapTransport:
 class VL(vloop.VLoop):
     def set_time(self, t: float):
         self._vtime = t
+
+    def drop_everything(self):
+        """Forget every callback and timer (used between shallow-seam worlds, after their tasks were cancelled)."""
+        for h in list(self._scheduled):
+            h.cancel()
+        self._scheduled.clear()
+        self._ready.clear()
+        self.exceptions.clear()
 
 
 # ---------------------------------------------------------------------------------------------------------------
@@ -199,7 +229,7 @@ class Endpoint:
         return n
 
     def canon(self):
-        return (self.next_id, tuple(sorted((k, tuple(v)) for k, v in self.sent.items())), tuple(self.own_unacked),
+        return (self.next_id, tuple((k, tuple(self.sent[k])) for k in self.own_unacked),
                 tuple(self.pending), tuple(sorted(self.rmap.items())))
 
 
@@ -207,8 +237,8 @@ class Inj:
     __slots__ = ("d", "wire", "rel", "tag", "state", "last", "elapsed", "future")
 
     def canon(self, now):
-        return (self.d, self.wire, self.rel, self.tag, self.state, (now - self.last) if self.state == "pending" else -1,
-                self.elapsed)
+        live = self.state == "pending"
+        return (self.d, self.wire, self.rel, self.tag, self.state, (now - self.last) if live else -1, self.elapsed if live else -1)
 
 
 _LOOP: Optional[VL] = None
@@ -293,12 +323,18 @@ def _clone_circuit(c: ProxiedCircuit, tr, futs, memo) -> ProxiedCircuit:
 
 
 class World:
+    seam = "deep"
+    twin = None
+
     def __init__(self):
         self.loop = _process_loop()
         self.loop.set_time(0.0)
         self.tr = CapTransport()
         self.circuit = ProxiedCircuit(NEAR, FAR, self.tr)
         self.deser = _DESER
+        self._init_model()
+
+    def _init_model(self):
         self.interval = int(round(self.circuit.resend_every * 10))  # in polls of 0.1 s
         self.budget = _budget()
         self.now = 0                                                # virtual time in 0.1 s units
@@ -311,7 +347,6 @@ class World:
         self.last_out: Tuple = ()
         self.flags: Tuple = ()
         self.dead = False
-        self.coll = 0
 
     def __deepcopy__(self, memo):
         n = object.__new__(World)
@@ -329,7 +364,7 @@ class World:
             n.inj_by_tag[j.tag] = j
         n.ninj = dict(self.ninj)
         n.any_reliable = self.any_reliable
-        n.violations, n.last_out, n.flags, n.dead, n.coll = [], self.last_out, self.flags, self.dead, self.coll
+        n.violations, n.last_out, n.flags, n.dead = [], self.last_out, self.flags, self.dead
         return n
 
     def bad(self, clause, site, detail):
@@ -346,12 +381,85 @@ class World:
         return out
 
 
+SOCKS_TO_FAR = struct.pack("!HBB", 0, 0, 1) + socket.inet_aton(FAR[0]) + struct.pack("!H", FAR[1])
+_LIVE_PROTOCOLS: List[Any] = []
+
+
+class ShallowWorld(World):
+    """The same circuit reached through the proxy's own glue: InterceptingLLUDPProxyProtocol.datagram_received with a real
+    SessionManager/Session/ProxiedRegion, an addon object that drops on request, and the protocol's own attempt_resends
+    task running on the virtual loop.  ``twin`` is a deep-seam world fed the same events for comparison."""
+    seam = "shallow"
+
+    def __init__(self, drop_style: str):
+        from hippolyzer.lib.base.datatypes import UUID
+        from hippolyzer.lib.proxy.addon_utils import BaseAddon
+        from hippolyzer.lib.proxy.addons import AddonManager
+        from hippolyzer.lib.proxy.lludp_proxy import InterceptingLLUDPProxyProtocol
+        from hippolyzer.lib.proxy.sessions import SessionManager
+        from hippolyzer.lib.proxy.settings import ProxySettings
+
+        self.loop = _process_loop()
+        for proto in _LIVE_PROTOCOLS:               # retire the previous world's resend task
+            proto.resend_task.cancel()
+        del _LIVE_PROTOCOLS[:]
+        self.loop.run_ready()
+        self.loop.drop_everything()
+        self.loop.set_time(0.0)
+
+        world = self
+
+        class DropAddon(BaseAddon):
+            def handle_lludp_message(self, session, region, message):
+                world.hook_calls += 1
+                if world.armed:
+                    world.armed = False
+                    if drop_style == "take":
+                        message.take()              # proxy sees message.queued and calls drop_message itself
+                    else:
+                        region.circuit.drop_message(message)
+                    return True
+
+        self.hook_calls = 0
+        self.armed = False
+        self.addon = DropAddon()
+        self.session_manager = SessionManager(ProxySettings())
+        self.session = self.session_manager.create_session({
+            "session_id": UUID(int=1), "secure_session_id": UUID(int=2), "agent_id": UUID(int=3), "circuit_code": 1234,
+            "sim_ip": FAR[0], "sim_port": FAR[1], "region_x": 0, "region_y": 123,
+            "seed_capability": "https://test.localhost:4/foo",
+        })
+        AddonManager.init([], self.session_manager, [self.addon])
+        self.tr = CapTransport()
+        self.protocol = InterceptingLLUDPProxyProtocol(NEAR, self.session_manager)
+        self.protocol.transport = self.tr
+        _LIVE_PROTOCOLS.append(self.protocol)
+        region = self.session.regions[-1]
+        self.protocol.session = self.session
+        self.protocol.far_to_near_map[region.circuit_addr] = NEAR
+        self.session_manager.claim_session(self.session.id)
+        self.session.open_circuit(NEAR, region.circuit_addr, self.tr)
+        self.session.main_region = region
+        self.region = region
+        self.circuit = region.circuit
+        self.deser = _DESER
+        self.loop.run_ready()                        # lets attempt_resends reach its first sleep
+        self._init_model()
+        self.twin = World()
+
+    def __deepcopy__(self, memo):
+        raise TypeError("shallow-seam worlds are rebuilt by replay")
+
+
 class Harness:
-    copyable = True     # World.__deepcopy__ is a hand-written clone of the live circuit (see _clone_circuit)
+    def __init__(self, seam: str = "deep", drop_style: str = "drop"):
+        self.seam, self.drop_style = seam, drop_style
+        # deep: World.__deepcopy__ is a hand-written clone of the live circuit (see _clone_circuit)
+        self.copyable = seam == "deep"
 
     # --- construction --------------------------------------------------------------------------------------------
     def fresh(self) -> World:
-        return World()
+        return World() if self.seam == "deep" else ShallowWorld(self.drop_style)
 
     # --- menu ----------------------------------------------------------------------------------------------------
     def enabled(self, w: World):
@@ -361,7 +469,7 @@ class Harness:
         for d in DIRS:
             e = w.ep[d]
             npend = min(len(e.pending), WINDOW)
-            sels = ["-"] if npend == 0 else (["a", "n"] if npend == 1 else ["a", "o", "n"])
+            sels = ["-"] if npend == 0 else (["a", "n"] if npend == 1 else ["a", "o", "w", "n"])
             for rel in (1, 0):
                 for sel in sels:
                     evs.append(("snd", d, rel, sel, 0))
@@ -369,7 +477,9 @@ class Harness:
                 evs.append(("pack", d, "a"))
             for rel in (1, 0):
                 evs.append(("inj", d, rel))
-        evs.append(("T", "past"))
+        # time only matters once some reliable packet has passed through the circuit (before that every Tick is a no-op)
+        if w.any_reliable:
+            evs.append(("T", "past"))
         for d in DIRS:
             e = w.ep[d]
             npend = min(len(e.pending), WINDOW)
@@ -379,19 +489,21 @@ class Harness:
                     evs.append(("snd", d, rel, sel, 1))
             if npend >= 2:
                 evs.append(("pack", d, "o"))
+                evs.append(("pack", d, "w"))
             if e.own_unacked:
                 evs.append(("rtx", d, 0))
                 evs.append(("rtx", d, 1))
-        evs.append(("T", "short"))
-        evs.append(("T", "exhaust"))
+        if w.any_reliable:
+            evs.append(("T", "short"))
+            evs.append(("T", "exhaust"))
         return evs
 
     def deviation(self, ev) -> int:
         k = ev[0]
         if k == "snd":
-            return 1 if (ev[4] or ev[3] in ("o", "n")) else 0
+            return 1 if (ev[4] or ev[3] in ("o", "w", "n")) else 0
         if k == "pack":
-            return 1 if ev[2] == "o" else 0
+            return 1 if ev[2] in ("o", "w") else 0
         if k == "rtx":
             return 1
         if k == "T":
@@ -401,6 +513,7 @@ class Harness:
     # --- canonical state -----------------------------------------------------------------------------------------
     def canon(self, w: World):
         c = w.circuit
+        w.loop.set_time(w.now / 10.0)
         trackers = tuple((tuple(t.injections), t._injection_base, t._packet_id_base, tuple(t.dropped))
                          for t in (c.out_injections, c.in_injections))
         unacked = []
@@ -419,8 +532,23 @@ class Harness:
 
     # --- transitions ---------------------------------------------------------------------------------------------
     def step(self, w: World, ev):
+        if w.twin is not None:
+            w.twin.violations = []
+            self._step_one(w.twin, ev)
+            self._step_one(w, ev)
+            if w.last_out != w.twin.last_out and not w.twin.violations:
+                w.bad("seam-divergence", "InterceptingLLUDPProxyProtocol.attempt_resends" if ev[0] == "T"
+                      else "InterceptingLLUDPProxyProtocol.handle_proxied_packet",
+                      f"event {ev}: through datagram_received the transport saw {w.last_out}, "
+                      f"calling the circuit directly {w.twin.last_out}")
+                w.dead = True
+        else:
+            self._step_one(w, ev)
+
+    def _step_one(self, w: World, ev):
         w.flags = ()
         w.last_out = ()
+        w.loop.set_time(w.now / 10.0)      # the process-wide virtual clock shows this world's time
         kind = ev[0]
         try:
             if kind == "snd":
@@ -448,6 +576,47 @@ class Harness:
             w.bad("exception", site, f"{type(e).__name__}: {e}")
             raise _Abort()
 
+    def _deliver(self, w: World, d: str, data: bytes, drop: bool):
+        if w.seam == "deep":
+            # exactly what handle_proxied_packet does with the circuit
+            msg = self._call(w, "UDPMessageDeserializer.deserialize", w.deser.deserialize, data)
+            msg.direction = LIBDIR[d]
+            msg.sender = NEAR if d == "O" else FAR
+            self._call(w, "Circuit.collect_acks", w.circuit.collect_acks, msg)
+            if drop:
+                self._call(w, "ProxiedCircuit.drop_message", w.circuit.drop_message, msg)
+            else:
+                self._call(w, "ProxiedCircuit.send", w.circuit.send, msg)
+            return
+        site = "InterceptingLLUDPProxyProtocol.datagram_received"
+        w.armed = drop
+        calls = w.hook_calls
+        if d == "O":
+            self._call(w, site, w.protocol.datagram_received, SOCKS_TO_FAR + data, NEAR)
+        else:
+            self._call(w, site, w.protocol.datagram_received, data, FAR)
+        w.loop.run_ready()
+        self._loop_exceptions(w, site)
+        if w.hook_calls != calls + 1 or w.armed:
+            w.bad("seam-divergence", "InterceptingLLUDPProxyProtocol.handle_proxied_packet",
+                  f"datagram from {d} reached the addon hook {w.hook_calls - calls} times (drop consumed: {not w.armed})")
+
+    def _poll(self, w: World):
+        """0.1 s of virtual time passes (w.now already counts it) and the resend poll runs."""
+        if w.seam == "deep":
+            w.loop.set_time(w.now / 10.0)
+            self._call(w, "Circuit.resend_unacked", w.circuit.resend_unacked)
+        else:
+            w.loop.advance(0.1)                      # fires attempt_resends' sleep
+            w.loop.set_time(w.now / 10.0)            # stay on the 0.1 s grid (no float drift)
+            self._loop_exceptions(w, "InterceptingLLUDPProxyProtocol.attempt_resends")
+
+    def _loop_exceptions(self, w: World, site: str):
+        if w.loop.exceptions:
+            for e in w.loop.collect_exceptions():
+                w.bad("exception", site, f"{e}")
+            raise _Abort()
+
     # endpoint E (sending in direction d) puts one datagram on the wire; the proxy forwards or drops it
     def _endpoint_packet(self, w: World, d: str, what: str, rel: bool, sel: str, drop: bool, rtx: bool):
         E, P = w.ep[d], w.ep[OTHER[d]]
@@ -456,6 +625,8 @@ class Harness:
             acks = list(window)
         elif sel == "o":
             acks = window[:1]
+        elif sel == "w":
+            acks = window[-1:]
         else:
             acks = []
         if what == "ack" and not acks:
@@ -477,25 +648,19 @@ class Harness:
             E.next_id += 1
             first_wire = None
         tag = (ORIGIN[d] << 16) | n
+        if rel:
+            w.any_reliable = True
         if what == "data":
             flags = (F_REL if rel else 0) | (F_RESENT if rtx else 0)
             data = enc_data(n, flags, tag, acks)
         else:
             data = enc_packetack(n, acks)
 
-        # --- exactly what handle_proxied_packet does with the circuit --------------------------------------------
-        msg = self._call(w, "UDPMessageDeserializer.deserialize", w.deser.deserialize, data)
-        msg.direction = LIBDIR[d]
-        msg.sender = NEAR if d == "O" else FAR
-        self._call(w, "Circuit.collect_acks", w.circuit.collect_acks, msg)
-        for key in inj_acks:                       # the receiving endpoint's ack has entered the proxy
+        for key in inj_acks:                       # the receiving endpoint's ack is about to enter the proxy
             inj = w.inj[key]
             if inj.state == "pending":
                 inj.state = "acked"
-        if drop:
-            self._call(w, "ProxiedCircuit.drop_message", w.circuit.drop_message, msg)
-        else:
-            self._call(w, "ProxiedCircuit.send", w.circuit.send, msg)
+        self._deliver(w, d, data, drop)
         out = w.take()
         w.last_out = tuple(g.sig() for g in out)
 
@@ -553,7 +718,6 @@ class Harness:
                           f"{what} {n} from {d} acks={acks} (peer ids {peer_acks}, injected {inj_acks}) drop={drop}")
         self._check_shown(w, E, d, to_E, exp_E, False, site_E, f"{what} {n} from {d} reliable={rel} drop={drop}",
                           missing_clause="ack-to-sender-missing")
-        self._note_collisions(w, out)
         fl = []
         if any(p != a for p, a in zip(peer_acks, [a for a in acks if E.rmap[a][0] == "P"])):
             fl.append("translated-ack")
@@ -592,12 +756,6 @@ class Harness:
             if x in X.own_unacked:
                 X.own_unacked.remove(x)
 
-    def _note_collisions(self, w: World, out: List[Dg]):
-        # unreliable proxy-made PacketAcks that reuse a wire id already used by a reliable packet: informational only
-        for g in out:
-            if g.kind == "ack" and g.wire in w.ep[OTHER[g.d]].rmap:
-                w.coll += 1
-
     # the proxy injects a packet travelling in direction d
     def _inject(self, w: World, d: str, rel: bool):
         R = w.ep[OTHER[d]]          # receiver (it sends in the other direction)
@@ -620,9 +778,10 @@ class Harness:
             w.bad("ack-without-cause", site, f"injected packet carries acks {g.shown()}")
         if bool(g.flags & F_REL) != rel or (g.flags & F_RESENT):
             w.bad("injection-output", site, f"injected packet flags {g.flags:#x}, reliable wanted={rel}")
-        if (d, g.wire) in w.inj or g.wire in R.rmap:
+        if rel and ((d, g.wire) in w.inj or g.wire in R.rmap):
             w.bad("reliable-wire-id-reused", "InjectionTracker.gen_injectable_id", f"injected wire id {g.wire} toward {d} already in use")
         if rel:
+            w.any_reliable = True
             inj = Inj()
             inj.d, inj.wire, inj.rel, inj.tag, inj.state, inj.last, inj.elapsed, inj.future = d, g.wire, rel, tag, "pending", w.now, 0, fut
             w.inj[(d, g.wire)] = inj
@@ -633,58 +792,80 @@ class Harness:
 
     # virtual time passes; resend_unacked is polled every 0.1 s like attempt_resends does
     def _tick(self, w: World, kind: str):
-        polls = {"past": w.interval, "short": w.interval - 1, "exhaust": (w.budget + 1) * w.interval}[kind]
+        """Poll granularity slack: with e = time since the last transmission, a retransmission is forbidden while
+        e < interval, permitted at the poll where e == interval and required at the next one (the statement fixes the
+        cadence, not which side of the boundary the comparison falls on).  Same for giving up."""
+        polls = {"past": w.interval + 1, "short": w.interval - 1, "exhaust": (w.budget + 1) * (w.interval + 1)}[kind]
         site = "Circuit.resend_unacked"
         all_out = []
         fl = set()
+        tr = w.tr
+        live = [i for i in w.inj.values() if i.state == "pending"]
         for _ in range(polls):
             w.now += 1
-            w.loop.set_time(w.now / 10.0)
-            self._call(w, site, w.circuit.resend_unacked)
-            expected: Dict[Tuple[str, int], Inj] = {}
-            for key, inj in w.inj.items():
-                if inj.state != "pending" or w.now - inj.last < w.interval:
-                    continue
-                inj.elapsed += 1
-                inj.last = w.now
-                if inj.elapsed >= w.budget:
-                    inj.state = "failed"
-                    fl.add("exhausted")
-                else:
-                    expected[key] = inj
-                    fl.add("resend")
-            if not w.tr.out:
-                if expected:
-                    k = next(iter(expected))
-                    w.bad("resend-missing", site, f"t={w.now / 10}s: injected {k} due for retransmission #{expected[k].elapsed}, nothing sent")
+            self._poll(w)
+            if not tr.out and not live:
                 continue
-            out = w.take()
-            all_out.extend(out)
-            seen = set()
-            for g in out:
-                inj = w.inj_by_tag.get(g.tag) if g.kind == "data" else None
-                if inj is None or g.d != inj.d:
-                    w.bad("unexpected-datagram", site, f"t={w.now / 10}s: {g.sig()} emitted by the resend poll")
-                    continue
-                key = (inj.d, inj.wire)
-                if g.shown():
-                    w.bad("ack-without-cause", site, f"retransmission of {key} carries acks {g.shown()}")
-                if g.wire != inj.wire:
-                    w.bad("resend-id-changed", site, f"injected {key} retransmitted with wire id {g.wire}")
-                if key in seen:
-                    w.bad("resend-early", site, f"t={w.now / 10}s: injected {key} retransmitted twice in one poll")
-                elif key not in expected:
+            got: Dict[Tuple[str, int], int] = {}
+            if tr.out:
+                out = w.take()
+                all_out.extend(out)
+                for g in out:
+                    inj = w.inj_by_tag.get(g.tag) if g.kind == "data" else None
+                    if inj is None or g.d != inj.d:
+                        w.bad("unexpected-datagram", site, f"t={w.now / 10}s: {g.sig()} emitted by the resend poll")
+                        continue
+                    key = (inj.d, inj.wire)
+                    if g.shown():
+                        w.bad("ack-without-cause", site, f"retransmission of {key} carries acks {g.shown()}")
+                    if g.wire != inj.wire:
+                        w.bad("resend-id-changed", site, f"injected {key} retransmitted with wire id {g.wire}")
+                    if (g.flags & (F_REL | F_RESENT)) != (F_REL | F_RESENT):
+                        w.bad("resend-flags", site, f"retransmission of {key} has flags {g.flags:#x}, wants RELIABLE|RESENT")
+                    got[key] = got.get(key, 0) + 1
                     if inj.state != "pending":
                         w.bad("resend-after-completion", site, f"t={w.now / 10}s: injected {key} retransmitted although it is {inj.state}")
                     else:
-                        w.bad("resend-early", site, f"t={w.now / 10}s: injected {key} retransmitted {w.now - inj.last} polls after its last transmission (interval {w.interval})")
-                seen.add(key)
-                if (g.flags & (F_REL | F_RESENT)) != (F_REL | F_RESENT):
-                    w.bad("resend-flags", site, f"retransmission of {key} has flags {g.flags:#x}, wants RELIABLE|RESENT")
-                w.ep[OTHER[inj.d]].receive_reliable(inj.wire)
-            for key in expected:
-                if key not in seen:
-                    w.bad("resend-missing", site, f"t={w.now / 10}s: injected {key} due for retransmission #{expected[key].elapsed}, not among {[g.sig() for g in out]}")
+                        w.ep[OTHER[inj.d]].receive_reliable(inj.wire)
+            still = []
+            for inj in live:
+                key = (inj.d, inj.wire)
+                e = w.now - inj.last
+                n = got.get(key, 0)
+                fdone = inj.future.done()
+                if e < w.interval:
+                    if n:
+                        w.bad("resend-early", site, f"t={w.now / 10}s: injected {key} retransmitted {e / 10}s after its last transmission (interval {w.interval / 10}s)")
+                    if fdone:
+                        w.bad("completion-premature", site, f"t={w.now / 10}s: injected {key}: future done {e / 10}s into interval #{inj.elapsed + 1}")
+                    still.append(inj)
+                elif inj.elapsed + 1 >= w.budget:
+                    # this interval's expiry spends the budget: give up, transmit nothing
+                    if n:
+                        w.bad("resend-beyond-budget", site, f"t={w.now / 10}s: injected {key} transmitted again after {w.budget} transmissions")
+                    if e == w.interval and not fdone:
+                        still.append(inj)
+                        continue
+                    if not fdone:
+                        w.bad("completion-not-at-exhaustion", site, f"t={w.now / 10}s: injected {key}: interval #{w.budget} elapsed unacknowledged, future still pending")
+                    inj.state, inj.last, inj.elapsed = "failed", w.now, inj.elapsed + 1
+                    fl.add("exhausted")
+                else:
+                    if fdone:
+                        w.bad("completion-premature", site, f"t={w.now / 10}s: injected {key}: future done after {inj.elapsed + 1} of {w.budget} intervals")
+                    if n == 0:
+                        if e > w.interval:
+                            w.bad("resend-missing", site, f"t={w.now / 10}s: injected {key} due for retransmission #{inj.elapsed + 1} since {(e - w.interval) / 10}s, nothing sent")
+                            inj.last = w.now
+                    else:
+                        if n > 1:
+                            w.bad("resend-early", site, f"t={w.now / 10}s: injected {key} retransmitted {n} times in one poll")
+                        inj.last, inj.elapsed = w.now, inj.elapsed + 1
+                        fl.add("resend")
+                    still.append(inj)
+            live = still
+            if w.violations:
+                break
         w.last_out = tuple(g.sig() for g in all_out)
         w.flags = tuple(sorted(fl))
 
@@ -718,10 +899,16 @@ class _Abort(Exception):
 # ---------------------------------------------------------------------------------------------------------------
 
 SEARCHES = {
-    # (depth, deviation bound) pairs; quick is a strict subset of thorough
-    "quick": [(5, 1), (4, 3)],
-    "thorough": [(7, 0), (6, 1), (5, 3)],
+    # deep seam: (depth, deviation bound) pairs; quick is a strict subset of thorough
+    "quick": [(5, 3)],
+    "thorough": [(5, 3), (6, 2), (7, 0)],
 }
+SHALLOW = {
+    # shallow seam (datagram_received + Session + addon + attempt_resends task), each for both addon drop styles
+    "quick": [(3, 3)],
+    "thorough": [(3, 3), (4, 3)],
+}
+DROP_STYLES = ("drop", "take")    # addon calls circuit.drop_message itself / addon take()s the message and returns True
 
 
 def run(run: Run):
@@ -735,25 +922,44 @@ def run(run: Run):
         "endpoints are well-behaved LLUDP peers: own packet ids 1,2,3.., ack only reliable packets they received, retransmit only own unacked reliable packets",
         "packet-id wrap-around and injection-window eviction (10 000) are out of reach of the depth bound",
         "retry budget N = ReliableResendInfo.tries_left default = total transmissions (original + N-1 resends); failure when the N-th interval elapses",
-        "resend_unacked is polled every 0.1 virtual seconds (as attempt_resends does); datagrams are delivered to endpoints instantly and losslessly",
+        "the resend poll runs every 0.1 virtual seconds (as attempt_resends does); a retransmission is accepted at the poll where exactly one "
+        "interval has elapsed or at the next one; datagrams reach endpoints instantly and losslessly",
         "dropping a standalone PacketAck and StartPingCheck rewriting are not exercised",
+        "Tick events are enabled only after some reliable packet has passed through the circuit",
     ]
     for depth, devb in SEARCHES[run.tier]:
-        explore.bfs(run, h, depth=depth, dev_bound=devb, label=f"depth={depth} dev<={devb} ", recheck_every=53)
-    run.coverage_extra["searches_plan"] = SEARCHES[run.tier]
+        explore.bfs(run, h, depth=depth, dev_bound=devb, label=f"deep depth={depth} dev<={devb} ", recheck_every=53)
+    for depth, devb in SHALLOW[run.tier]:
+        for style in DROP_STYLES:
+            explore.bfs(run, Harness("shallow", style), depth=depth, dev_bound=devb,
+                        label=f"shallow({style}) depth={depth} dev<={devb} ", recheck_every=29)
+    run.coverage_extra["searches_plan"] = {"deep": SEARCHES[run.tier], "shallow": SHALLOW[run.tier], "drop_styles": DROP_STYLES}
     run.coverage_extra["retry_budget_read"] = _budget()
     for v in run.violations:
         hist = v["witness"]["history"]
+        seam = _seam_of(v)
         try:
-            small = explore._minimise_tuples(h, hist, v["clause"], v["site"])
-            v["witness"] = {"history": [list(e) for e in small]}
+            hh = Harness(*seam)
+            small = explore._minimise_tuples(hh, hist, v["clause"], v["site"])
+            v["witness"] = {"seam": list(seam), "history": [list(e) for e in small]}
         except Exception as e:  # best effort
             run.notes.append(f"minimise failed: {e!r}")
-    vloop.uninstall()
+            v["witness"] = {"seam": list(seam), "history": hist}
+
+
+def _seam_of(v) -> Tuple[str, str]:
+    """Which harness reproduces this violation: the deep one if it fails there, else the first shallow style that does."""
+    hist = v["witness"]["history"]
+    for seam in (("deep", "drop"), ("shallow", "drop"), ("shallow", "take")):
+        try:
+            got = explore.replay_history(Harness(*seam), hist)
+        except Exception:
+            continue
+        if any(g["clause"] == v["clause"] and g["site"] == v["site"] for g in got):
+            return seam
+    return ("deep", "drop")
 
 
 def replay(witness):
-    try:
-        return explore.replay_history(Harness(), witness["history"])
-    finally:
-        vloop.uninstall()
+    seam = witness.get("seam") or ["deep", "drop"]
+    return explore.replay_history(Harness(*seam), witness["history"])
